@@ -24,7 +24,9 @@ def rec_sig(r):
     if r["fn"] == "qenc":
         return "qenc:not-decodable-to-input"
     if r["fn"] == "qdec" and isinstance(r.get("out"), dict) and r["out"].get("ok"):
-        return "qdec:accepts-invalid:random"
+        if r.get("_why") in ("padding-too-long", "eos-symbol"):
+            return "qdec:accepts:huffman-" + r["_why"]      # the all-ones cases of known finding D11b
+        return "qdec:accepts-invalid:random" + (":" + r["_why"] if r.get("_why") else "")
     return f"{r['fn']}:record"
 
 
